@@ -159,6 +159,11 @@ def simp(t):
         if base[0] == "CT" and base[2] == t[2] and t[3] < len(base[3]):
             return base[3][t[3]]
         return t
+    if k == "IX":
+        base = t[1]
+        if base[0] == "WIX" and base[2] == t[2]:
+            return base[3]
+        return t
     if k == "D":
         base = t[1]
         if base[0] == "CT" and base[5] is not None:
@@ -428,6 +433,8 @@ class _Eval:
                 if tr[0] == "RET":
                     return tr[1]
             return ("?", "promoted")
+        if "cv" in c:
+            return ("K", ty, c["cv"])
         if "uneval" in c:
             d = F.defs[c["uneval"]]
             return ("AC", F.fid(c["uneval"]), tuple(short(a) for a in c.get("args", [])))
@@ -506,22 +513,32 @@ class _Eval:
                 return effects + (("store", cur, val),)
             # store to a field behind a pointer
             old = mem.get(cur, cur)
-            new = self._with(old, projs[1:], val)
+            new = self._with(old, projs[1:], val, env)
             mem[cur] = new
             return effects + (("store", cur, new),)
         old = cur if cur is not None else ("?", "uninit:%d" % local)
         if old[0] == "MR":
             old = ("?", "mr")
-        env[local] = self._with(old, projs, val)
+        env[local] = self._with(old, projs, val, env)
         return effects
 
-    def _with(self, old, projs, val):
+    def _with(self, old, projs, val, env=None):
         pr = projs[0]
-        if isinstance(pr, dict) and "f" in pr and len(projs) == 1:
+        if isinstance(pr, dict) and "f" in pr:
             name = pr["n"]
             if name is None or name.isdigit():
                 name = pr["f"]
-            return ("WITH", old, name, val)
+            if len(projs) == 1:
+                return ("WITH", old, name, val)
+            inner = self._with(simp(("F", old, name)), projs[1:], val, env)
+            if inner[0] == "?":
+                return inner
+            return ("WITH", old, name, inner)
+        if isinstance(pr, dict) and "i" in pr and len(projs) == 1 and env is not None:
+            idx = env.get(pr["i"], ("?", "uninit"))
+            return ("WIX", old, idx, val)
+        if isinstance(pr, dict) and "ci" in pr and len(projs) == 1 and not pr["end"]:
+            return ("WIX", old, ("K", "usize", pr["ci"]), val)
         return ("?", "partial-store")
 
     # ---- control flow
@@ -730,6 +747,8 @@ def show_term(t, depth=0):
         return "%s[%s]" % (show_term(t[1]), show_term(t[2]))
     if k == "WITH":
         return "%s{.%s=%s}" % (show_term(t[1]), t[2], show_term(t[3]))
+    if k == "WIX":
+        return "%s{[%s]=%s}" % (show_term(t[1]), show_term(t[2]), show_term(t[3]))
     if k == "?":
         return "?%s" % (t[1],)
     return repr(t)
